@@ -14,7 +14,7 @@ EXPLANATION = (
     "written only as spxLdexp(old, int) and the exponent arrays only from integer expressions (no floating multiply/divide touches LP data); "
     "R09.3 the user-level accessors of the real LP reach scaled storage only through an *Unscaled method of SPxLPBase or the ...Internal "
     "accessors documented as scaled, never through the _scaler pointer (which is null after the scaler parameter is switched off); R09.4 "
-    "writeFile(unscale=true) on a scaled LP writes an unscaled copy; R09.7 doAddRow(s)/doAddCol(s) read the other dimension's exponents only after creating missing columns / rows; R09.5 per-row / per-column arrays of LPRowSetBase / LPColSetBase, the "
+    "writeFile(unscale=true) on a scaled LP writes an unscaled copy; R09.7 doAddRow(s)/doAddCol(s) read the other dimension's exponents only after creating missing columns / rows; R09.8 the mirrored copy of a new entry is taken after the entry was scaled; R09.5 per-row / per-column arrays of LPRowSetBase / LPColSetBase, the "
     "scale exponents among them, move together in every permutation / removal / resize, and the single-index setters of a scaled LP compare "
     "the new value with the unscaled stored value before skipping an unchanged update. NOT decided: that the scalers choose good exponents, "
     "overflow of ldexp.")
@@ -248,6 +248,7 @@ def run(fb, rep, tier):
     finally:
         pass
     grow_before_index(fb, rep)
+    scale_then_mirror(fb, rep)
 
 
 def _run(fb, rep, tier):
@@ -523,3 +524,32 @@ def grow_before_index(fb, rep):
                       '%s reads %s (the scale exponents of the %s) at line %d before / while the missing %s are created: for an index that does not exist yet the read is beyond the array' % (f.short, r.n, 'columns' if other == 'LPColSetBase' else 'rows', r.l, 'columns' if other == 'LPColSetBase' else 'rows'))
     if k < 6:
         raise AnalysisBroken('R09.7: only %d reads of the other dimension\'s scale exponents found in doAdd*' % k)
+
+
+def scale_then_mirror(fb, rep):
+    """R09.8: doAddRow(s) / doAddCol(s) store every new coefficient twice (row file and column file).  Under persistent scaling the new
+    entry is scaled in place (`vec.value(j) = spxLdexp(vec.value(j), ..)`); the copy into the other file has to read the entry AFTER that
+    write, otherwise the two files hold different numbers (scaled in one, raw in the other)."""
+    rep.rule('R09.8', 'in doAddRow(s) / doAddCol(s) the mirrored copy of a new entry is taken after the entry has been scaled', floor=6)
+    k = 0
+    for f in sorted(fb.funcs.values(), key=lambda g: (g.name, g.sig)):
+        if not re.match(r'^soplex::SPxLPBase<double>::doAdd(Row|Col)s?$', f.name) or not f.nodes:
+            continue
+        for lp in f.nodes:
+            if lp.k != 'ForStmt' or lp.kid('body') is None:
+                continue
+            body = list(lp.kid('body').walk())
+            writes = [x for x in body if x.k in ('BinaryOperator', 'CXXOperatorCallExpr') and x.o == '=' and re.match(r'^\w+\.value\(\w+\)$', render(strip(x.kids[0] if x.k == 'BinaryOperator' else x.args()[0])))
+                      and 'spxLdexp' in render(x.kids[1] if x.k == 'BinaryOperator' else x.args()[1])]
+            # only the innermost loop that directly contains the write
+            writes = [w for w in writes if [a for a in f.ancestors(w) if a.k == 'ForStmt'][0].i == lp.i]
+            for w in writes:
+                tgt = render(strip(w.kids[0] if w.k == 'BinaryOperator' else w.args()[0]))
+                inside_w = set(y.i for y in w.walk())
+                reads = [x for x in body if x.k in ('CXXMemberCallExpr',) and render(x) == tgt and x.i not in inside_w]
+                for r in reads:
+                    k += 1
+                    rep.check(r.i > w.i, 'R09.8', '%s(%d)|%s read@%d' % (f.short, len(f.params), tgt, r.l), '%s:%d' % (f.file, r.l), 'read after the scaling write at line %d' % w.l,
+                              '%s is copied at line %d, before it is scaled at line %d: the other file receives the unscaled coefficient while this one holds the scaled one' % (tgt, r.l, w.l))
+    if k < 6:
+        raise AnalysisBroken('R09.8: only %d mirrored reads of freshly scaled entries found' % k)
